@@ -3,7 +3,7 @@
 # and runs the registered quick check of its property against it; prints one line per seed. Scratch worktree is removed afterwards.
 set -u
 cd /verif
-WT=/tmp/seedregress-wt
+WT=${SEEDREGRESS_WT:-/tmp/seedregress-wt}
 names=("$@"); [ ${#names[@]} -eq 0 ] && names=($(ls seeded))
 for n in "${names[@]}"; do
   id=${n%%-*}
@@ -18,4 +18,4 @@ for n in "${names[@]}"; do
   else echo "$n: $(echo "$out" | tail -1 | cut -c1-200)"; fi
 done
 git -C /repo worktree remove --force $WT >/dev/null 2>&1; git -C /repo worktree prune
-rm -rf /verif/.build/alt-* /verif/.build/*.alt.test
+[ -n "${SEEDREGRESS_NOCLEAN:-}" ] || rm -rf /verif/.build/alt-* /verif/.build/*.alt.test
